@@ -39,14 +39,15 @@ class Payloads:
 
 
 # pseudo-pushes whose operand is a hexadecimal number (a data hash, a sub-assembly index): the assembler reads it
-# case-insensitively, so 'ADA3..' and 'ada3..' are the same real value (GASOL re-emits them in lower case)
+# as a number, so 'ADA3..' / 'ada3..' and '00..01' / '1' are the same real value (GASOL re-emits them in lower case
+# and without leading zeros)
 HEX_VALUED = {"PUSH data", "PUSH [$]", "PUSH #[$]"}
 
 
 def item_coq(it, pay):
     v = it.get("value")
     if v is not None and it["name"] in HEX_VALUED:
-        v = str(v).lower()
+        v = str(v).lower().lstrip("0") or "0"     # the same number: GASOL re-emits it in lower case without leading zeros
     return "mkI %s %s %d" % (cstr(it["name"]), "None" if v is None else "(Some %s)" % cstr(v), pay.of(it))
 
 
